@@ -72,7 +72,7 @@ Linked(st, g, t) ==
          /\ g.nm # None => (st.fb = g.nm /\ st.ismsb /\ st.reg = g.kind)
          /\ g.nl # None => (st.fb = g.nl /\ ~st.ismsb /\ st.reg = g.kind)
     /\ st.ph # "WNC" => (st.nm # None /\ st.nl # None /\ g.nm = st.nm /\ g.nl = st.nl /\ g.kind = st.reg)
-    /\ g.owe <=> (st.ph = "VP" /\ st.ismsb)
+    /\ g.owe <=> (st.ph = "VP" /\ st.ismsb /\ ~PgMixed(g))
     /\ (st.ph = "VP" /\ st.ismsb) =>
          (st.b # None /\ g.c6 = st.b /\ g.c6t = st.at /\ ~g.rep /\ g.last = "cc6")
     /\ (st.ph = "VP" /\ ~st.ismsb) =>
@@ -98,7 +98,7 @@ EncodeWaitPollOK(st, g, msg, ord, t, tmo) ==
         p  == PollPoll(r4.st, c, t + tmo, tmo)
         total == r1.out \o r2.out \o r3.out \o r4.out \o p.out
     IN \/ total = <<msg>>
-       \/ Len(total) = 2 /\ total[2] = msg /\ IsEntry7(total[1]) /\ g.owe
+       \/ Len(total) = 2 /\ total[2] = msg /\ IsEntry7(total[1]) /\ total[1][3] = g.c6 /\ ~g.rep
 RtInv == to # Inf => EncodeWaitPollOK(sc[rt[1]], gh[rt[1]], rt, rtOrd, now, to)
 
 \* non-vacuity witnesses: these are NOT invariants; Apalache must refute them from IndInit
@@ -114,11 +114,13 @@ IndInit ==
           fvm \in [Chans -> B7], fvl \in [Chans -> B7] :
           sc = [c \in Chans |-> [ph |-> fph[c], fb |-> ffb[c], reg |-> freg[c], ismsb |-> fis[c], nm |-> fnm[c],
                                   nl |-> fnl[c], at |-> fat[c], b |-> fb[c], vm |-> fvm[c], vl |-> fvl[c]]]
-    /\ \E gnm \in [Chans -> B7], gnl \in [Chans -> B7], gk \in [Chans -> BOOLEAN], g6 \in [Chans -> B7],
+    /\ \E gnm \in [Chans -> B7], gnl \in [Chans -> B7], gk \in [Chans -> BOOLEAN], gkm \in [Chans -> BOOLEAN],
+          gkl \in [Chans -> BOOLEAN], gp38 \in [Chans -> BOOLEAN], g6 \in [Chans -> B7],
           g6t \in [Chans -> Int], g38 \in [Chans -> B7], g38t \in [Chans -> Int], grep \in [Chans -> BOOLEAN],
           glast \in [Chans -> Lasts], glate \in [Chans -> BOOLEAN], gowe \in [Chans -> BOOLEAN] :
-          gh = [c \in Chans |-> [nm |-> gnm[c], nl |-> gnl[c], kind |-> gk[c], c6 |-> g6[c], c6t |-> g6t[c],
-                                  c38 |-> g38[c], c38t |-> g38t[c], rep |-> grep[c], last |-> glast[c],
+          gh = [c \in Chans |-> [nm |-> gnm[c], nl |-> gnl[c], kind |-> gk[c], km |-> gkm[c], kl |-> gkl[c],
+                                  c6 |-> g6[c], c6t |-> g6t[c],
+                                  c38 |-> g38[c], c38t |-> g38t[c], p38 |-> gp38[c], rep |-> grep[c], last |-> glast[c],
                                   late38 |-> glate[c], owe |-> gowe[c]]]
     /\ viol = {}
     /\ \E c \in Chans, n \in 0..16383, v \in 0..16383, r \in BOOLEAN, k \in 0..3 :
